@@ -72,7 +72,7 @@ class C06(Sim):
     RULE = ("one run = a pool of 2-8 meshes from seeded producers, 2-3 clients issuing copy/merge/transform/edit calls on the meshes they own; "
             "after every call every mesh is compared with its independent float64 model; distinct = distinct (producer multiset, call-kind sequence); "
             "non-trivial = >= 2 meshes alive and >= 2 transform/edit calls")
-    FAULT_KINDS = ["aliasing_schedule"]
+    FAULT_KINDS = ["aliasing_schedule", "reject"]
     PROBES = ["merge_same_twice", "merge_result_edited", "copy_edited", "source_edited_after_copy", "open_ring", "boundary_producer",
               "subdivision_producer", "int_coordinates", "inverse_pair", "flatten", "normalize", "load_producer", "inplace_edit", "copy_connectivity", "elem_edit", "cloud_in_merge", "copy_of_warm_source", "attribute_attached", "attr_edit", "class_wider_than_content"]
     QUICK_RUNS = 3000
@@ -345,6 +345,8 @@ class C06(Sim):
         t = r.choice(mine)
         rf = self.ref[t]
         ops = ["translate", "translate", "rotate", "scale", "scale_xyz", "normalize", "fit_unit", "to_origin", "flatten", "inverse_pair", "rebind_vertex"]
+        if self.cfg["faults_on"]:
+            ops.append("bad_call")  # fault 'reject': a transform called with arguments it must refuse; no mesh of the pool may change
         if self._inplace_ok(t):
             ops += ["inplace_edit", "inplace_edit", "elem_edit"]
         if rf.A is not None:
@@ -371,6 +373,8 @@ class C06(Sim):
             ev["v"] = self._vec(r)
             ev["angles"] = [round(r.uniform(-3, 3), 3) for _ in range(3)]
             ev["s"] = r.choice([0.5, 2.0, 4.0, 0.125, -2.0])
+        elif op == "bad_call":
+            ev["what"] = r.choice(["rotate_two_angles", "rotate_bad_matrix", "translate_2d", "rotate_string"])
         elif op == "elem_edit":
             ev["i"] = r.below(1 << 16)
         elif op == "attr_edit":
@@ -650,6 +654,26 @@ class C06(Sim):
             exact = True
             clause = "edit-own-mesh"
             rf.E = None  # re-read below
+        elif op == "bad_call":
+            what = ev["what"]
+            if what == "rotate_two_angles":
+                o = call(T.rotate, mesh, [0.3, 0.4])
+            elif what == "rotate_bad_matrix":
+                o = call(T.rotate, mesh, np.eye(2))
+            elif what == "translate_2d":
+                o = call(T.translate, mesh, V([1.0, 2.0]))
+            else:
+                o = call(T.rotate, mesh, "xyz")
+            self.faults["reject"] += 1
+            self.ntrans -= 1
+            self.kinds.pop()
+            # whatever the call did (these arguments are outside the documented domain), a call that RAISED must leave every mesh as it was
+            if not o.ok:
+                self._check_pool("bad_call:" + what, t, [list(p) for p in P], True, "rejected-call-changes-nothing", rf.producer)
+            else:
+                rf.P = coords(mesh)
+                self._check_pool("bad_call:" + what)
+            return "raised" if not o.ok else "accepted"
         elif op == "attr_edit":
             self.probes["attr_edit"] += 1
 
